@@ -138,6 +138,9 @@ pub fn install_panic_hook() {
             .location()
             .map(|l| format!("{}:{}", l.file(), l.line()))
             .unwrap_or_else(|| "<unknown>".into());
+        if std::env::var("VERIF_BACKTRACE").is_ok() {
+            eprintln!("panic: {msg} at {loc}\n{}", std::backtrace::Backtrace::force_capture());
+        }
         let quiet = QUIET.with(|q| q.get());
         LAST_PANIC.with(|p| *p.borrow_mut() = Some((msg, loc)));
         if !quiet {
